@@ -21,7 +21,7 @@
  * RAW entry, whether file[0] is open after the call (internal.h peek), so that the
  * checker can feed the LRU auto-close decisions (which depend on time(NULL)) to the model.
  *
- * types: i8 u8 i16 u16 i32 u32 i64 u64 f32 f64 c64 c128 null (complex: real part, ";imag" when non-zero).  Values are printed as
+ * types: i8 u8 i16 u16 i32 u32 i64 u64 f32 f64 c64 c128 null bad (complex: real part, ";imag" when non-zero).  Values are printed as
  * decimal integers when integral, "nan" for NaN, %.17g otherwise.
  */
 #include "internal.h"
@@ -36,6 +36,7 @@ static gd_type_t ty(const char *s)
   if (!strcmp(s, "f32")) return GD_FLOAT32; if (!strcmp(s, "f64")) return GD_FLOAT64;
   if (!strcmp(s, "c64")) return GD_COMPLEX64; if (!strcmp(s, "c128")) return GD_COMPLEX128;
   if (!strcmp(s, "null")) return GD_NULL;
+  if (!strcmp(s, "bad")) return (gd_type_t)0x33;    /* not a type: the call must fail with GD_E_BAD_TYPE */
   fprintf(stderr, "bad type %s\n", s); exit(2);
 }
 
